@@ -18,7 +18,7 @@ from vf.core import h64
 PROP = "C10"
 SHARDS = {"quick": 8, "thorough": 16}
 TIME_CAP = {"quick": 60, "thorough": 900}
-RECURSION_LIMIT = 1000
+RECURSION_LIMIT = 500
 STEP_BUDGET = 60_000
 REQUIRED = ["programs", "cases", "class_validator_ran", "skipped:invalid-dep", "skipped:discarded-dep", "skipped:all-default", "outcome:ok",
             "outcome:verr", "ctor_checks", "mock_path_runs", "real_path_runs", "errors_compared", "order_checked", "values_compared",
@@ -35,7 +35,7 @@ RULE = ("generated dataclasses with 1-4 int fields (required / defaulted / stati
         "is executed completely in plain form and in one seeded decorated form; quick: seeded sample of the decorated space up to 4x4.")
 ASSUMPTIONS = ["validators only raise ValidationError / yield errors; helper methods and properties are plain attribute readers",
                "termination is a bounded claim: each call finishes within 60000 Python function entries and without RecursionError "
-               "(recursion limit 1000, data depth <= 2); wall-clock watchdog separate (inconclusive)",
+               "(recursion limit 500, data depth <= 2); wall-clock watchdog separate (inconclusive)",
                "order between validators of a class and of its base class is only required to be fixed (detected once per program); "
                "order among function validators attached to one field value is not checked",
                "validators depending on a post_init-modified field while structural errors exist: run or skip both accepted (statement silent); "
